@@ -394,6 +394,17 @@ class Inliner:
             return fn, True
         if isinstance(f, ast.Attribute) and self.ci is not None:
             name = f.attr
+            if not (_is_private(name) or name in self.also) and name not in self.exclude and name not in ANCHOR_FUNCTIONS \
+                    and norm(f.value) in ("self", "cls", self.ci.name, "type(self)", "self.__class__"):
+                # a small public *static* method of the class (`self.decode_uint32(data)`): a function kept in the class namespace
+                r0 = self.repo.lookup(self.ci, name)
+                if r0 is not None and r0[1] == "method" and _decos(r0[2]) == ["staticmethod"] and len(_body(r0[2])) <= 5 and not _is_generator(r0[2]) \
+                        and not any(isinstance(n, (ast.With, ast.Try, ast.For, ast.While, ast.Global, ast.Nonlocal)) for n in ast.walk(r0[2])) \
+                        and not self._overridden(r0[0], name):
+                    fn0 = r0[2]
+                    if self.sf is not None and r0[0].file is not self.sf:
+                        fn0 = self._foreign(fn0, r0[0].file)
+                    return fn0, False
             if not (_is_private(name) or name in self.also) or name in self.exclude:
                 return None
             recv = norm(f.value)
@@ -1220,6 +1231,14 @@ def _forward_result_temps(fn: ast.FunctionDef) -> None:
         while i < len(stmts):
             st = stmts[i]
             nxt = stmts[i + 1] if i + 1 < len(stmts) else None
+            if isinstance(st, ast.Assign) and len(st.targets) == 1 and isinstance(st.targets[0], ast.Name) and st.targets[0].id.startswith("__ret") \
+                    and stores.get(st.targets[0].id) == 1 and loads.get(st.targets[0].id) == 1 and isinstance(nxt, ast.Assign) and len(nxt.targets) == 1 \
+                    and isinstance(nxt.value, ast.Name) and nxt.value.id == st.targets[0].id:
+                # __retN = E; T = __retN   (the temporary is read nowhere else)   is   T = E
+                nxt.value = st.value
+                out.append(nxt)
+                i += 2
+                continue
             if isinstance(st, ast.If) and isinstance(nxt, ast.Assign) and len(nxt.targets) == 1 and isinstance(nxt.targets[0], ast.Name) \
                     and isinstance(nxt.value, ast.Name) and nxt.value.id.startswith("__ret") and loads.get(nxt.value.id) == 1:
                 t = nxt.value.id
@@ -2101,10 +2120,22 @@ def expand_aliases(fn: ast.FunctionDef) -> ast.FunctionDef:
     roots_ok = {"self"} | {a.arg for a in new.args.args}
     for lp in [n for n in ast.walk(new) if isinstance(n, (ast.For, ast.AsyncFor))]:
         lvars = {m.id for m in ast.walk(lp.target) if isinstance(m, ast.Name)}
-        if any(cnt.get(v, 0) != 1 for v in lvars):
+        # the loop variable is bound by this loop only while its body runs (another loop may reuse the name elsewhere)
+        if any(isinstance(m, ast.Name) and m.id in lvars and isinstance(m.ctx, (ast.Store, ast.Del)) for b in lp.body + lp.orelse for m in ast.walk(b)):
             continue
         drop = []
-        for st in lp.body:
+        cand = list(lp.body)
+        # … also directly inside an `if` of the body (`if mod: slots = mod.in_link_slots; for …`), uses confined to that branch
+        nested_lists = [blk for st0 in lp.body if isinstance(st0, ast.If) for blk in (st0.body, st0.orelse)]
+        for blk in nested_lists:
+            for j, st in enumerate(blk):
+                if isinstance(st, ast.Assign) and len(st.targets) == 1 and isinstance(st.targets[0], ast.Name) and isinstance(st.value, ast.Attribute):
+                    nm0 = st.targets[0].id
+                    later0 = {id(x) for s2 in blk[j + 1:] for x in ast.walk(s2)}
+                    uses0 = [n for n in ast.walk(new) if isinstance(n, ast.Name) and n.id == nm0 and isinstance(n.ctx, ast.Load)]
+                    if uses0 and all(id(u) in later0 for u in uses0):
+                        cand.append(st)
+        for st in cand:
             if not (isinstance(st, ast.Assign) and len(st.targets) == 1 and isinstance(st.targets[0], ast.Name) and isinstance(st.value, ast.Attribute)):
                 continue
             nm, v = st.targets[0].id, st.value
@@ -2122,6 +2153,10 @@ def expand_aliases(fn: ast.FunctionDef) -> ast.FunctionDef:
                 drop.append(st)
         if drop:
             lp.body = [x for x in lp.body if not any(x is d for d in drop)] or [ast.Pass()]
+            for st0 in lp.body:
+                if isinstance(st0, ast.If):
+                    st0.body = [x for x in st0.body if not any(x is d for d in drop)] or [ast.Pass()]
+                    st0.orelse = [x for x in st0.orelse if not any(x is d for d in drop)]
     if not alias:
         return new
     new.body = [st for st in new.body if not (isinstance(st, ast.Assign) and len(st.targets) == 1 and isinstance(st.targets[0], ast.Name)
@@ -2575,6 +2610,7 @@ def normalize(repo: Repo, ci: Optional[ClassInfo], fn: ast.FunctionDef, sf: Opti
     try:
         out = expand_cached_locals(out)
         out = desugar_scan_loops(out)
+        out = publish_fresh_locals(out)
     except Exception:
         pass
     if any(isinstance(n, ast.Call) and isinstance(n.func, ast.Name) for n in ast.walk(out)):
@@ -3486,6 +3522,7 @@ def desugar_records(repo: Repo, ci: Optional[ClassInfo], sf: Optional[SourceFile
                 return False
         return True
     records: Dict[str, Dict[str, ast.expr]] = {}
+    splits: Dict[str, List[Tuple[str, ast.expr]]] = {}
     for nm, v in defs.items():
         seen = 0
         while isinstance(v, ast.Name) and v.id in defs and seen < 4:
@@ -3503,8 +3540,9 @@ def desugar_records(repo: Repo, ci: Optional[ClassInfo], sf: Optional[SourceFile
                 m = {}
                 break
             m[k.arg] = k.value
-        if len(m) != len(fields) or not all(pure(x) for x in m.values()):
+        if len(m) != len(fields):
             continue
+        split = not all(pure(x) for x in m.values())
         # used only as `nm.field`
         uses = [n for n in ast.walk(fn) if isinstance(n, ast.Name) and n.id == nm and isinstance(n.ctx, ast.Load)]
         attr_uses = [n for n in ast.walk(fn) if isinstance(n, ast.Attribute) and isinstance(n.value, ast.Name) and n.value.id == nm
@@ -3512,10 +3550,24 @@ def desugar_records(repo: Repo, ci: Optional[ClassInfo], sf: Optional[SourceFile
         copies = [k2 for k2, v2 in defs.items() if isinstance(v2, ast.Name) and v2.id == nm]
         if len(uses) != len(attr_uses) + len(copies):
             continue
+        if split:
+            # field expressions that must be evaluated where the record is built (`len(xs)` before `xs.append`): one local per field
+            if copies or len(v.args) + len(v.keywords) != len(fields):
+                continue
+            splits[nm] = [(f_, m[f_]) for f_ in ([fields[i] for i in range(len(v.args))] + [k.arg for k in v.keywords])]
+            m = {f_: ast.Name(id=f"{nm}__{f_}", ctx=ast.Load()) for f_ in m}
         records[nm] = m
     if not records:
         return fn
     new = copy.deepcopy(fn)
+    if splits:
+        class SP(ast.NodeTransformer):
+            def visit_Assign(self, node):
+                if len(node.targets) == 1 and isinstance(node.targets[0], ast.Name) and node.targets[0].id in splits and isinstance(node.value, ast.Call):
+                    return [ast.copy_location(ast.Assign(targets=[ast.Name(id=f"{node.targets[0].id}__{f_}", ctx=ast.Store())], value=copy.deepcopy(e_)), node)
+                            for f_, e_ in splits[node.targets[0].id]]
+                return self.generic_visit(node)
+        new = SP().visit(new)
 
     class R(ast.NodeTransformer):
         def visit_Attribute(self, node):
@@ -4453,6 +4505,66 @@ def expand_cached_locals(fn: ast.FunctionDef) -> ast.FunctionDef:
         for f_ in ("body", "orelse", "finalbody"):
             if isinstance(getattr(n, f_, None), list) and f_ == "body" and not n.body and not isinstance(n, ast.Module):
                 n.body = [ast.Pass()]
+    ast.fix_missing_locations(new)
+    number(new)
+    return new
+
+
+def publish_fresh_locals(fn: ast.FunctionDef) -> ast.FunctionDef:
+    """`x = Ctor(...)` directly followed by `self.A = x` (x bound once; `self.A` not assigned again later in the function, no call of a
+    method of self after it that could re-assign it): the object is read as `self.A` from there on — `self.A = Ctor(...)`,
+    `x.f = v` is `self.A.f = v`."""
+    stores: Dict[str, int] = {}
+    for n in ast.walk(fn):
+        if isinstance(n, ast.Name) and isinstance(n.ctx, (ast.Store, ast.Del)):
+            stores[n.id] = stores.get(n.id, 0) + 1
+    params = {a.arg for a in fn.args.args + fn.args.kwonlyargs}
+    todo = []
+    for stmts, loops, cond in _stmt_lists(fn):
+        for i in range(len(stmts) - 1):
+            a, b = stmts[i], stmts[i + 1]
+            if not (isinstance(a, ast.Assign) and len(a.targets) == 1 and isinstance(a.targets[0], ast.Name) and isinstance(a.value, ast.Call)
+                    and isinstance(a.value.func, (ast.Name, ast.Attribute)) and norm(a.value.func).split(".")[-1][:1].isupper()):
+                continue
+            x = a.targets[0].id
+            if stores.get(x) != 1 or x in params:
+                continue
+            if not (isinstance(b, ast.Assign) and len(b.targets) == 1 and isinstance(b.targets[0], ast.Attribute) and isinstance(b.targets[0].value, ast.Name)
+                    and b.targets[0].value.id == "self" and isinstance(b.value, ast.Name) and b.value.id == x):
+                continue
+            chain = norm(b.targets[0])
+            later = [s2 for s2 in stmts[i + 2:]]
+            later_nodes = [n for s2 in later for n in ast.walk(s2)]
+            if any(isinstance(n, ast.Attribute) and isinstance(n.ctx, (ast.Store, ast.Del)) and norm(n) == chain for n in later_nodes):
+                continue
+            if any(isinstance(n, ast.Call) and isinstance(n.func, ast.Attribute) and norm(n.func.value) == "self" for n in later_nodes):
+                continue
+            uses = [n for n in ast.walk(fn) if isinstance(n, ast.Name) and n.id == x and isinstance(n.ctx, ast.Load) and n is not b.value]
+            ids = {id(n) for n in later_nodes}
+            if not all(id(u) in ids for u in uses):
+                continue
+            if loops and any(isinstance(n, ast.Attribute) and isinstance(n.ctx, ast.Store) and norm(n) == chain and n is not b.targets[0] for n in ast.walk(fn)):
+                continue
+            todo.append((x, norm(a), norm(b), b.targets[0]))
+    if not todo:
+        return fn
+    new = copy.deepcopy(fn)
+    for x, ta, tb, chain_node in todo:
+        class P(ast.NodeTransformer):
+            def visit_Assign(self, node):
+                if norm(node) == ta:
+                    return None
+                if norm(node) == tb:
+                    src = next(n for n in ast.walk(fn) if isinstance(n, ast.Assign) and norm(n) == ta)
+                    node.value = copy.deepcopy(src.value)
+                    return node
+                return self.generic_visit(node)
+
+            def visit_Name(self, node):
+                if node.id == x and isinstance(node.ctx, ast.Load):
+                    return ast.copy_location(ast.Attribute(value=ast.Name(id="self", ctx=ast.Load()), attr=chain_node.attr, ctx=ast.Load()), node)
+                return node
+        new = P().visit(new)
     ast.fix_missing_locations(new)
     number(new)
     return new
